@@ -148,6 +148,21 @@ def equal(a, b):
     return values_equal(a, b, same_function=lambda x, y: True)
 
 
+def _cyclic(v, key):
+    if isinstance(v, list):
+        v.append(v)
+    else:
+        v[key] = v
+    return v
+
+
+ODD_VALUES = {'bigO': {'k%d' % i: float(i) for i in range(120)}, 'bigA': [float(i) for i in range(120)], 'bigS': 'abc' * 100, 'inf': float('inf'),
+              'nanv': float('nan'), 'cyA': _cyclic([1.0], None), 'cyO': _cyclic({}, 'self')}
+# per expected argument type: odd values of another type (the call must fail with its documented failure value, whatever the value looks like)
+ODD_WRONG = {'array': ['bigO', 'bigS', 'inf', 'nanv', 'cyO'], 'object': ['bigA', 'bigS', 'inf', 'nanv', 'cyA'], 'string': ['bigO', 'bigA', 'inf', 'nanv', 'cyA', 'cyO'],
+             'key': ['bigO', 'bigA', 'inf', 'nanv', 'cyA', 'cyO'], 'index': ['bigO', 'bigA', 'bigS', 'cyA', 'cyO']}
+
+
 class Machine(RuleBasedStateMachine):
     ctx = None          # set by the runner
 
@@ -192,6 +207,10 @@ class Machine(RuleBasedStateMachine):
         rnd = random.Random(seed)
         lines = ['a0 = arrayNew(1, 2, 3)', 'a1 = a0', "a2 = arrayNew('b', 'a', null, 2)", 'a3 = arrayNew(a0, arrayNew(5))',
                  "o0 = objectNew('a', 1, 'b', a0)", 'o1 = o0', "o2 = objectNew()", "s0 = 'abcab'", "s1 = ''", "s2 = 'a,b,,c'", 'r = null']
+        # values that only ever serve as wrong-typed arguments: big containers and a long string, non-finite numbers, containers that contain themselves
+        lines += ['bigO = objectNew()', 'bigA = arrayNew()', 'ii = 0', 'while ii < 120:', "    objectSet(bigO, 'k' + ii, ii)", '    arrayPush(bigA, ii)', '    ii = ii + 1',
+                  'endwhile', "bigS = stringRepeat('abc', 100)", 'inf = 1e+308 * 10', 'nanv = inf - inf', 'cyA = arrayNew(1)', 'arrayPush(cyA, cyA)',
+                  'cyO = objectNew()', "objectSet(cyO, 'self', cyO)"]
         self.h.model = {}
         m = self.h.model
         m['a0'] = [1.0, 2.0, 3.0]
@@ -212,6 +231,9 @@ class Machine(RuleBasedStateMachine):
         """Returns (source text, model value)."""
         m = self.h.model
         k = rnd.random()
+        if k < 0.04 and spec_type in ODD_WRONG:
+            choice = rnd.choice(ODD_WRONG[spec_type])
+            return choice, ODD_VALUES[choice]
         if k < 0.12:          # wrong-typed / odd value
             choice = rnd.choice(['null', 'true', "'str'", '7', 'a0', 'o0', 's0', '1.5', '(0 - 1)', 'arrayNew()', 'objectNew()'])
             table = {'null': None, 'true': True, "'str'": 'str', '7': 7.0, 'a0': m.get('a0'), 'o0': m.get('o0'), 's0': m.get('s0'), '1.5': 1.5, '(0 - 1)': -1.0}
@@ -393,7 +415,7 @@ class Machine(RuleBasedStateMachine):
         else:
             st_['failed'] += 1
             self.stats['failed'] += 1
-            ok = (got is None) or (expected is not None and equal(got, expected) and type(got) is type(expected))
+            ok = (got is None) if expected is None else (equal(got, expected) and isinstance(got, bool) == isinstance(expected, bool))
             if outcome == 'fail-default':
                 ok = got is None or equal(got, expected)
             if not failed_log:
@@ -532,10 +554,52 @@ def check_url(s):
             raise Violation('%s(%r) = %r leaves %r unencoded' % (name, s, enc_, bad[:3]), d, 'url-charset:' + name)
 
 
+ODD_SETUP = ['a0 = arrayNew(1, 2, 3)', "o0 = objectNew('a', 1)", "s0 = 'abcab'", 'bigO = objectNew()', 'bigA = arrayNew()', 'ii = 0', 'while ii < 120:',
+             "    objectSet(bigO, 'k' + ii, ii)", '    arrayPush(bigA, ii)', '    ii = ii + 1', 'endwhile', "bigS = stringRepeat('abc', 100)", 'inf = 1e+308 * 10',
+             'nanv = inf - inf', 'cyA = arrayNew(1)', 'arrayPush(cyA, cyA)', 'cyO = objectNew()', "objectSet(cyO, 'self', cyO)",
+             'farD = datetimeNew(9999, 12, 31, 23, 59, 59, 999)']
+VALID_TEXT = {'array': 'a0', 'object': 'o0', 'string': 's0', 'key': "'a'", 'index': '0', 'search': "'a'", 'any': '1', 'code': '65'}
+
+
+def check_odd_wrong(fn, pos, odd):
+    """fn called with valid arguments except an odd value of another type at position pos: the documented failure value, arguments unchanged."""
+    d = {'kind': 'odd-wrong', 'fn': fn, 'pos': pos, 'odd': odd}
+    sig = [x.lstrip('?*') for x in Machine.SIGNATURES[fn]]
+    texts = [VALID_TEXT['key' if t == 'kv' else t] for t in sig]
+    texts[pos] = odd
+    src = '\n'.join(ODD_SETUP + ['r = %s(%s)' % (fn, ', '.join(texts))])
+    for debug in (False, True):
+        real, log = {}, []
+        out = impl.run_source(src, real, log, 5000, debug=debug)
+        if out.kind != 'ok':
+            raise Violation('%s(%s) ended the script with %r' % (fn, ', '.join(texts), out), d, 'odd-wrong-raises:' + fn)
+        got, want = real.get('r'), rl.FAILURE_VALUES.get(fn)
+        if fn == 'objectGet':
+            want = 1.0        # the supplied default
+        ok = (got is None) if want is None else (equal(got, want) and isinstance(got, bool) == isinstance(want, bool))
+        if not ok:
+            raise Violation('%s(%s) with a wrong-typed argument returned %r, the documented failure value is %r (debug=%r)' % (fn, ', '.join(texts), _short(got), want, debug),
+                            d, 'odd-wrong-value:' + fn)
+        if debug and not any('Function "%s" failed' % fn in m for m in log):
+            raise Violation('%s(%s) with a wrong-typed argument logged no failure in debug mode' % (fn, ', '.join(texts)), d, 'odd-wrong-log:' + fn)
+        if not (equal(real['a0'], [1.0, 2.0, 3.0]) and equal(real['o0'], {'a': 1.0}) and real['s0'] == 'abcab' and len(real['bigO']) == 120 and len(real['bigA']) == 120
+                and len(real['cyA']) == 2 and len(real['cyO']) == 1):
+            raise Violation('%s(%s) with a wrong-typed argument changed an argument' % (fn, ', '.join(texts)), d, 'odd-wrong-changed:' + fn)
+
+
+def odd_wrong_cases():
+    for fn in sorted(Machine.SIGNATURES):
+        for pos, t in enumerate(Machine.SIGNATURES[fn]):
+            t = t.lstrip('?*')
+            for odd in ODD_WRONG.get(t, []) + (['farD'] if t in ODD_WRONG else []):
+                yield fn, pos, odd
+
+
 def plan(tier):
     k = 12 if tier == 'quick' else 16
     specs = [{'kind': 'machine', 'n': 300 if tier == 'quick' else 6000, 'k': i} for i in range(k)]
     specs += [{'kind': 'stateless', 'n': 4000 if tier == 'quick' else 40000, 'k': i} for i in range(2 if tier == 'quick' else 4)]
+    specs += [{'kind': 'odd-wrong'}]
     return specs
 
 
@@ -547,6 +611,17 @@ def run_shard(ctx, spec):
             ctx.case(digest([s, u]), bool(set(s) & set('.*+?()[]{}|^$\\')) or bool(set(u) - UNRESERVED), ['stateless'], {'regexEscape': s, 'url': u})
         run_hypothesis(ctx, prop, [st.lists(st.sampled_from(ESC_ALPHABET), max_size=7).map(''.join),
                                    st.one_of(st.lists(st.sampled_from(URL_ALPHABET), max_size=10).map(''.join), st.text(max_size=6))], spec['n'], salt=90 + spec['k'])
+        return
+    if spec['kind'] == 'odd-wrong':
+        n = 0
+        for fn, pos, odd in odd_wrong_cases():
+            try:
+                check_odd_wrong(fn, pos, odd)
+            except Violation as v:
+                ctx.violation(v)
+            ctx.case(digest(['odd-wrong', fn, pos, odd]), True, ['odd-wrong:' + odd], {'call': fn, 'position': pos, 'argument': odd})
+            n += 1
+        ctx.exhaustive['every typed parameter of the %d functions x odd wrong-typed values (%d calls)' % (len(Machine.SIGNATURES), n)] = True
         return
     Machine.ctx = ctx
     suppressed = set()
@@ -571,6 +646,9 @@ def replay(detail):
         return
     if detail.get('kind') == 'url':
         check_url(detail['s'])
+        return
+    if detail.get('kind') == 'odd-wrong':
+        check_odd_wrong(detail['fn'], detail['pos'], detail['odd'])
         return
     # a sequence: re-run the recorded script lines on fresh globals and on a model built by the reference interpreter
     from pbt.refsem import interp
